@@ -8,6 +8,7 @@ import (
 	"go/token"
 	"go/types"
 	"math"
+	"os"
 	"sort"
 	"strings"
 
@@ -55,29 +56,30 @@ type loopRec struct {
 }
 
 type Exec struct {
-	prog      *ssa.Program
-	specs     *Contracts
-	obls      []*Obligation
-	axioms    []*Term // global definitional assumptions (skolemised definitions)
-	defAxioms map[string][]*Term // definitional axioms keyed by the symbol they define
-	discovery int     // >0: loop modset discovery run, no obligations recorded
-	specMode  int     // >0: evaluating a spec function
-	specDefs  []*Term // definedness conditions collected in spec mode
-	specBase  int     // length of the path condition when the outermost spec evaluation started
-	curFn     string
-	curLabels []string
-	curInputs []NamedValue
-	curEntry  *State
-	notes     map[string]bool // modelling notes / trusted functions actually used
-	paths     int
-	maxPaths  int
-	tids      map[string]int
-	tidTypes  []types.Type
-	siteSeen  map[string]int
-	globals   map[*ssa.Global]*Term
-	initState *State // heap after package initialisers (immutable globals)
-	mutGlobal map[*ssa.Global]bool
-	stack     []string
+	prog       *ssa.Program
+	specs      *Contracts
+	obls       []*Obligation
+	axioms     []*Term            // global definitional assumptions (skolemised definitions)
+	defAxioms  map[string][]*Term // definitional axioms keyed by the symbol they define
+	discovery  int                // >0: loop modset discovery run, no obligations recorded
+	specMode   int                // >0: evaluating a spec function
+	specDefs   []*Term            // definedness conditions collected in spec mode
+	specAssert bool               // the spec being evaluated is being proved (not assumed)
+	specBase   int                // length of the path condition when the outermost spec evaluation started
+	curFn      string
+	curLabels  []string
+	curInputs  []NamedValue
+	curEntry   *State
+	notes      map[string]bool // modelling notes / trusted functions actually used
+	paths      int
+	maxPaths   int
+	tids       map[string]int
+	tidTypes   []types.Type
+	siteSeen   map[string]int
+	globals    map[*ssa.Global]*Term
+	initState  *State // heap after package initialisers (immutable globals)
+	mutGlobal  map[*ssa.Global]bool
+	stack      []string
 
 	disc         *discCtx
 	discDepth    int
@@ -86,6 +88,10 @@ type Exec struct {
 	topAssigns   []assignEntry
 	panicAllowed *Term
 	returns      int
+	pruner       *Pruner
+	pruneQueries int
+	pruneCuts    int
+	inlineAll    int  // >0: bounded lemma: callees are inlined (contracts ignored), loops unrolled up to this bound
 	tolerant     bool // executing package initialisers: unknown calls yield unknown values
 	initBase     int
 	freshBase    *Term // "allocated during the call" threshold while a callee's ensures is being assumed
@@ -425,6 +431,36 @@ func (e *Exec) idx64(fr *Frame, v ssa.Value) *Term {
 
 type pathLimit struct{}
 
+var forkStats map[string]int
+
+const pruneAfter = 48 // forks per function before the incremental solver is consulted at branches
+
+func showTerm(t *Term, d int) string {
+	switch t.Op {
+	case "var", "bound":
+		return t.Name
+	case "bvconst":
+		return fmt.Sprintf("%#x", t.Val)
+	case "intconst":
+		return fmt.Sprintf("%d", int64(t.Val))
+	case "ref":
+		return fmt.Sprintf("ref(%d,%d)", t.I1, t.Val)
+	case "true", "false":
+		return t.Op
+	}
+	if d == 0 {
+		return "..."
+	}
+	s := "(" + t.Op
+	if t.Op == "app" {
+		s += ":" + t.Name
+	}
+	for _, a := range t.Args {
+		s += " " + showTerm(a, d-1)
+	}
+	return s + ")"
+}
+
 func (e *Exec) runBlock(st *State, fr *Frame, b *ssa.BasicBlock, prev *ssa.BasicBlock, i0 int) []Outcome {
 	if st.dead {
 		return nil
@@ -451,7 +487,27 @@ func (e *Exec) runBlock(st *State, fr *Frame, b *ssa.BasicBlock, prev *ssa.Basic
 				}
 				return e.runBlock(st, fr, b.Succs[1], b, 0)
 			}
+			if e.paths >= pruneAfter && e.discovery == 0 {
+				if e.pruner == nil {
+					e.pruner = NewPruner()
+				}
+				base := append(append([]*Term{}, st.pc...), st.facts...)
+				if e.pruner.Infeasible(append(base, c)) {
+					st.Assume(Not(c))
+					return e.runBlock(st, fr, b.Succs[1], b, 0)
+				}
+				if e.pruner.Infeasible(append(base, Not(c))) {
+					st.Assume(c)
+					return e.runBlock(st, fr, b.Succs[0], b, 0)
+				}
+			}
 			e.paths++
+			if forkStats != nil {
+				if k := fnName(fr.fn) + relPos(fr.fn, x.Pos()); forkStats[k+" "+fr.fn.Prog.Fset.Position(x.Cond.Pos()).String()] == 0 {
+					fmt.Fprintf(os.Stderr, "FIRSTFORK %s %s\n   %s\n", k, fr.fn.Prog.Fset.Position(x.Cond.Pos()), showTerm(c, 7))
+				}
+				forkStats[fnName(fr.fn)+relPos(fr.fn, x.Pos())+" "+fr.fn.Prog.Fset.Position(x.Cond.Pos()).String()]++
+			}
 			if e.paths > e.maxPaths {
 				panic(unsupported(fmt.Sprintf("path limit %d exceeded in %s", e.maxPaths, e.curFn)))
 			}
@@ -1303,8 +1359,9 @@ func (e *Exec) strEq(a, b *StrV) *Term {
 }
 
 // seqEq defines a boolean that is true iff the two sequences are equal (conservative definition of a fresh symbol):
-//   eq  ==> lengths equal and forall j: ad[j] = bd[j-aoff+boff] on the range, triggered by ANY read of ad (and vice versa)
-//   !eq ==> lengths differ or the sequences differ at the skolem position k
+//
+//	eq  ==> lengths equal and forall j: ad[j] = bd[j-aoff+boff] on the range, triggered by ANY read of ad (and vice versa)
+//	!eq ==> lengths differ or the sequences differ at the skolem position k
 func (e *Exec) seqEq(ad, aoff, alen, bd, boff, blen *Term) *Term {
 	if ad == bd && aoff == boff {
 		return Eq(alen, blen)
